@@ -30,6 +30,10 @@ def main():
     meta = json.load(open(os.path.join(d, "meta.json")))
     if not checks:
         checks = [meta["property"]]
+    import fcntl
+    lock = open("/tmp/pv_repo.lock", "w")
+    fcntl.flock(lock, fcntl.LOCK_EX)        # background runs started with PV_LOCK_REPO=1 do not build while /repo is patched
+    os.environ.pop("PV_LOCK_REPO", None)
     st = sh("git -C /repo status --porcelain")
     if st.stdout.strip():
         print("refusing: /repo is not clean:\n" + st.stdout)
